@@ -157,6 +157,147 @@ def problems(seed, n, tier):
         yield i, rng, lsq.gen_problem(rng, force=force)
 
 
+NET_QUERIES = ["SOLVE", "RES", "PVV", "M0", "M0APOST", "DOF", "NULL", "NUNK", "NOBS", "CONFCOEF", "CONNECTED",
+               "QXX", "QBB", "STDEVOBS", "WCOEF", "STDEVRES", "STUDRES", "OBSCTRL", "LINDEP", "UNKSTDEV", "ELLIPSE"]
+NET_STATE = ["SETALG", "UPDATE", "SIGMAACT", "CONFPR"]
+
+
+def net_history(rng, nunk, nobs, nell, length):
+    cmds = []
+    up = [int(x) for x in rng.choice(nunk, min(4, nunk), replace=False) + 1]
+    op = [int(x) for x in rng.choice(nobs, min(4, nobs), replace=False) + 1]
+    for _ in range(length):
+        u = rng.uniform()
+        if u < 0.06:
+            cmds.append("SETALG " + str(rng.choice(lsq.ALGS)))
+        elif u < 0.14:
+            cmds.append("UPDATE " + str(rng.choice(["points", "observations", "residuals", "adjustment"])))
+        elif u < 0.17:
+            cmds.append("SIGMAACT " + str(rng.choice(["apriori", "aposteriori"])))
+        elif u < 0.19:
+            cmds.append("CONFPR %s" % rng.choice(["0.9", "0.95", "0.5"]))
+        else:
+            q = str(rng.choice(NET_QUERIES))
+            if q in ("QXX",):
+                cmds.append("QXX %d %d" % (rng.choice(up), rng.choice(up)))
+            elif q == "QBB":
+                cmds.append("QBB %d %d" % (rng.choice(op), rng.choice(op)))
+            elif q in ("STDEVOBS", "WCOEF", "STDEVRES", "STUDRES", "OBSCTRL"):
+                cmds.append("%s %d" % (q, rng.choice(op)))
+            elif q in ("LINDEP", "UNKSTDEV"):
+                cmds.append("%s %d" % (q, rng.choice(up)))
+            elif q == "ELLIPSE":
+                if nell:
+                    cmds.append("ELLIPSE %d" % int(rng.integers(1, nell + 1)))
+            else:
+                cmds.append(q)
+    return cmds
+
+
+def net_is_query(c):
+    return c.split()[0] not in NET_STATE
+
+
+def network_histories(ck, tier, seed):
+    """history monitor on live LocalNetwork objects (nethistdrv): generated networks x 4 algorithms x random
+    histories; every answer compared with a freshly parsed and prepared network given the same settings"""
+    import os
+    from .. import netgen, netlevel
+    runner.build("san", targets=["nethistdrv"])
+    exe = runner.binpath("san", "nethistdrv")
+    n = tier_n(tier, 12, 300)
+    nh = tier_n(tier, 2, 4)
+    fr = netgen.Frame()
+    jobs = []
+    for i in range(n):
+        rng, net, feats = netlevel.gen_mixed(seed, i, 4040)
+        txt = netgen.to_gkf(net, fr)
+        path = os.path.join(ck.tmp, "h%d.gkf" % i)
+        with open(path, "w") as f:
+            f.write(txt)
+        nunk = max(2, 2 * sum(1 for q in net.points.values() if q.xy in ("free", "constrained")) +
+                   sum(1 for q in net.points.values() if q.z in ("free", "constrained")))
+        nobs = max(2, sum(len(c.obs) for c in net.clusters))
+        nell = sum(1 for q in net.points.values() if q.xy in ("free", "constrained"))
+        for alg in lsq.ALGS:
+            for h in range(nh):
+                cmds = net_history(rng, nunk, nobs, nell, int(rng.integers(3, 15)))
+                jobs.append((i, net.kind, feats, alg, path, cmds))
+
+    def run_hist(path, alg, cmds):
+        script = []
+        for c in cmds:
+            script.append(c)
+            if net_is_query(c):
+                script.append("FRESH " + c)
+        rr = runner.run([exe, path, alg], stdin="\n".join(script) + "\n", timeout=300)
+        return rr, script
+
+    def divergence(rr, cmds):
+        out = [l for l in (rr.out or "").split("\n") if l != ""]
+        if not out or out[0] != "NET-OK":
+            return ("setup", out[0] if out else "no output"), None
+        reps = [solver.parse_reply(l) for l in out[1:]]
+        pos = 0
+        for k, c in enumerate(cmds):
+            if net_is_query(c):
+                if pos + 1 >= len(reps):
+                    return None, (k, "process died at %s" % c)
+                a, b = reps[pos], reps[pos + 1]
+                msg = compare(a, b, 1e-9)
+                if msg:
+                    return None, (k, msg)
+                pos += 2
+            else:
+                if pos >= len(reps):
+                    return None, (k, "process died at %s" % c)
+                pos += 1
+        return None, None
+
+    def work(job):
+        i, kind, feats, alg, path, cmds = job
+        rr, script = run_hist(path, alg, cmds)
+        return job, rr
+
+    for (i, kind, feats, alg, path, cmds), rr in runner.pmap(work, jobs):
+        wit = dict(seed=seed, index=i, level="network", kind=kind, features=feats, alg=alg, history=cmds)
+        if rr.timeout:
+            ck.inconc("timeout"); continue
+        setup, div = divergence(rr, cmds)
+        if setup:
+            ck.inconc("network set-up failed: %s" % str(setup[1])[:60]); continue
+        for k, c in enumerate(cmds):
+            if net_is_query(c):
+                ck.case(("network", alg, c.split()[0], "pos%d" % min(k, 4)))
+            else:
+                ck.count("network state-changing ops")
+        if div is None and not rr.san and rr.rc == 0:
+            ck.count("network histories held")
+            continue
+        k = div[0] if div else len(cmds) - 1
+        # minimise: drop earlier commands while the last query still diverges
+        seq = cmds[:k + 1]
+        changed = True
+        while changed and len(seq) > 1:
+            changed = False
+            for j in range(len(seq) - 1):
+                trial = seq[:j] + seq[j + 1:]
+                r2, _ = run_hist(path, alg, trial)
+                _, d2 = divergence(r2, trial)
+                if (d2 and d2[0] == len(trial) - 1) or r2.san:
+                    seq, changed = trial, True
+                    break
+        r3, _ = run_hist(path, alg, seq)
+        _, d3 = divergence(r3, seq)
+        key = "network:%s:%s" % (alg, shape(seq))
+        wit["history"] = seq
+        with open(path) as f:
+            wit["input"] = f.read()
+        if ck.sanitizer(r3, wit, prefix=key + ":"):
+            continue
+        ck.violation(key, "%s [minimal history: %s; %s case %d]" % (d3[1] if d3 else div[1], " ; ".join(seq), kind, i), wit)
+
+
 def run(tier, seed, only=None):
     runner.build("san", targets=["adjdrv"])
     ck = Check("C04", tier, seed,
@@ -259,6 +400,8 @@ def run(tier, seed, only=None):
                 continue
         ck.violation(key, "%s  [minimal history: %s; problem %d m=%d n=%d defect=%d]" % (
             msg, " ; ".join(seq), i, ref.m, ref.n, ref.defect), wit)
+    if only is None:
+        network_histories(ck, tier, seed)
     ck.assumptions += ["the oracle is gama's own code on a fresh object (the property is about history independence, "
                        "not about correctness of the value, which C01/C03 decide)",
                        "a fresh Adj is asked x() before q_xx/q_bb/defect (documented usage)"]
